@@ -6,7 +6,7 @@ against model/C10Claims.v:validate (vm_compute), on an exhaustive small universe
 Direct oracle: `spec_accepts` / `spec_classes` below are a Python transcription of
 the property statement (NOT of the code); the same cases also carry its verdicts
 into Coq where they are compared with Spec `accepts` (model/C10Spec.v)."""
-import copy, itertools, json, math, time
+import collections, collections.abc, copy, itertools, json, math, time, types
 from fractions import Fraction
 import lib
 from lib import c_str, c_Z, c_bool, c_list, c_opt, c_pv, c_exn, exn_class
@@ -64,8 +64,12 @@ def blank_scalar(r):
     return r == "" if isinstance(r, str) else Fraction(r) == 0
 
 
-def violated_clauses(now, lw, opts, claims, strict):
-    """list of (clause, class) violated by claims; clause names follow the statement"""
+def violated_clauses(now, lw, opts, claims, strict, builtin=True):
+    """list of (clause, class) violated by claims; clause names follow the statement.
+    now / leeway may be ints or (finite) floats: compared as exact rationals.
+    builtin=False: a registry without built-in rules (ClaimsRegistry used directly): every claim,
+    aud / exp / nbf / iat included, is judged by its request only."""
+    now, lw = Fraction(now), Fraction(lw)
     out = []
     for name, o in opts.items():
         if o.get("essential") is True and claims.get(name) is None:
@@ -73,7 +77,7 @@ def violated_clauses(now, lw, opts, claims, strict):
     for name, v in claims.items():
         o = opts.get(name)
         req = o if o else None                                   # R2: {} requests nothing
-        if name in ("exp", "nbf", "iat"):
+        if builtin and name in ("exp", "nbf", "iat"):
             if not is_number(v):
                 out.append(("number:" + name, "InvalidClaimError"))
             else:
@@ -87,7 +91,7 @@ def violated_clauses(now, lw, opts, claims, strict):
             continue
         rv = req.get("value")
         rvs = req.get("values")
-        if name == "aud":
+        if builtin and name == "aud":
             wanted = rvs if rvs is not None else ([] if rv is None or blank_scalar(rv) else [rv])   # R4
             have = v if isinstance(v, list) else [v]
             if wanted and not any(same_scalar(r, a) for r in wanted for a in have):
@@ -129,19 +133,53 @@ def strict_same(a, b):
     return a == b
 
 
-def run_impl(now, lw, opts, claims):
-    """-> ("ok", None) | ("err", exc), plus whether claims/options were left unchanged"""
-    from joserfc.rfc7519.registry import JWTClaimsRegistry
-    c0, o0 = copy.deepcopy(claims), copy.deepcopy(opts)
+class PlainMapping(collections.abc.Mapping):
+    """a Mapping that is not a dict (claims given as any Mapping)"""
+    def __init__(self, d):
+        self._d = d
+
+    def __getitem__(self, k):
+        return self._d[k]
+
+    def __iter__(self):
+        return iter(self._d)
+
+    def __len__(self):
+        return len(self._d)
+
+
+def make_registry(now, lw, opts, how="kw", base=False):
+    from joserfc.rfc7519.registry import JWTClaimsRegistry, ClaimsRegistry, ClaimsOption
+    if base:
+        return ClaimsRegistry(**opts)
+    if how == "positional":                       # now / leeway positional
+        return JWTClaimsRegistry(now, **opts) if lw is None else JWTClaimsRegistry(now, lw, **opts)
+    if how == "typed":                            # options built with the exported TypedDict
+        opts = {k: ClaimsOption(**o) for k, o in opts.items()}
+    if how == "jwt":                              # the name exported by joserfc.jwt
+        from joserfc import jwt as _jwt
+        cls = _jwt.JWTClaimsRegistry
+    else:
+        cls = JWTClaimsRegistry
     kw = {} if lw is None else {"leeway": lw}
+    return cls(now=now, **kw, **opts)
+
+
+def run_impl(now, lw, opts, claims, how="kw", wrap=None, base=False):
+    """-> ("ok", None) | ("err", exc), plus whether claims/options were left unchanged"""
+    c0, o0 = copy.deepcopy(claims), copy.deepcopy(opts)
     try:
-        reg = JWTClaimsRegistry(now=now, **kw, **opts)
-        r = reg.validate(claims)
-        res = ("ok", r)
+        reg = make_registry(now, lw, opts, how, base)
+        r = reg.validate(claims if wrap is None else wrap(claims))
+        res = ("ok", r) if r is None else ("err", AssertionError("validate returned %r instead of None" % (r,)))
     except BaseException as e:  # noqa
         res = ("err", e)
     pure = strict_same(c0, claims) and strict_same(o0, opts)
     return res, pure
+
+
+def cls_of(res):
+    return None if res[0] == "ok" else exn_class(res[1])
 
 
 def c_option(o):
@@ -201,6 +239,36 @@ def time_reprs(T):
     return out
 
 
+COLLIDING_NAMES = ["timestamp", "value", "values", "claims", "now", "leeway", "options", "essential_keys", "check_value",
+                   "essential", "allow_blank", "_", "", " ", "aud ", " exp", "Exp", "AUD", "__class__", "__init__", "__dict__",
+                   "validate", "validate_aud", "self", "numeric_time", "time", "date", "key", "kwargs", "func",
+                   "\u00e9t\u00e9", "\u4e2d\u6587", "a b", "exp\u200b", "a.b", "nbf\n", "\U0001f600"]
+
+
+def failing_units(now, lw):
+    """(claim name, value or ABSENT, option or None, clause): one violated clause each"""
+    return [
+        ("sub", "x", {"value": "y"}, "value"),
+        ("iss", "x", {"values": ["y", 0]}, "values"),
+        ("jti", "", {"essential": False}, "blank"),
+        ("aud", ["x", "z"], {"values": ["y"]}, "aud"),
+        ("aud", "x", {"value": "y", "essential": True}, "aud"),
+        ("exp", now - lw - 1, None, "expired"),
+        ("exp", float(now - lw) - 0.5, {"essential": True}, "expired"),
+        ("exp", "soon", None, "number"),
+        ("exp", now - lw - 1, {"value": 0}, "expired+value"),
+        ("nbf", now + lw + 1, None, "early"),
+        ("nbf", True, None, "number"),
+        ("nbf", now + lw + 1, {"values": ["q"]}, "early+values"),
+        ("iat", now + lw + 1.5, None, "early"),
+        ("iat", None, None, "number"),
+        ("iat", now + lw + 2, {"value": 3}, "early+value"),
+        ("priv", ABSENT, {"essential": True}, "missing"),
+        ("priv", None, {"essential": True, "value": "v"}, "missing"),
+        ("nonce", "", {"values": ["n"], "allow_blank": True}, "values"),
+    ]
+
+
 def gen_cases(ctx):
     """yields (tag, now, lw, opts, claims)"""
     rng = ctx.rng
@@ -241,7 +309,7 @@ def gen_cases(ctx):
                 opts = {} if o is None else {name: o}
                 yield ("time-type", 1, 1, copy.deepcopy(opts), {name: copy.deepcopy(v)})
     # huge now: float(T) differs from T
-    for now in (2 ** 53 + 1, 2 ** 62 + 1, -5):
+    for now in (2 ** 53 + 1, 2 ** 53 - 1, 2 ** 62 + 1, 10 ** 18, -5, -10 ** 18):
         for lw in (0, 1):
             for name in ("exp", "nbf", "iat"):
                 for T in (now - lw, now + lw, float(now - lw), float(now + lw), now - lw - 1, now + lw + 1):
@@ -263,6 +331,56 @@ def gen_cases(ctx):
                 yield ("malformed", 1, 1, {name: {"allow_blank": copy.deepcopy(bf)}}, {name: v})
                 yield ("malformed", 1, 1, {name: {"essential": copy.deepcopy(bf)}}, {name: v})
                 yield ("malformed", 1, 1, {name: {"essential": copy.deepcopy(bf)}}, {})
+    # 2c. claim names that collide with attributes / methods of the registry object or its dispatch:
+    # unrequested -> ignored whatever the name; requested -> judged by the request only
+    for name in COLLIDING_NAMES:
+        for v in ("x", "", 0, None, [], 1.5, True):
+            yield ("names", 1000, 5, {}, {name: copy.deepcopy(v)})
+            yield ("names", 1000, 5, {"sub": {"essential": True}}, {"sub": "s", name: copy.deepcopy(v), "exp": 2000})
+            if name not in ("now", "leeway", "self"):        # these cannot be passed as keyword options
+                for o in ({"value": "x"}, {"values": ["x", 0]}, {"essential": True}, {"allow_blank": False}, {}):
+                    yield ("names", 1000, 5, {name: copy.deepcopy(o)}, {name: copy.deepcopy(v)})
+        if name not in ("now", "leeway", "self"):
+            yield ("names", 1000, 5, {name: {"essential": True}}, {})
+    # 2d. falsy-but-valid values everywhere: as claim, as `value`, inside `values`
+    falsy = [0, 0.0, -0.0, False, "", [], {}]
+    for name in ("sub", "aud", "priv"):
+        for v in falsy + [None, 1, "a"]:
+            for f in falsy:
+                for blank in (ABSENT, True, False):
+                    for o in ({"value": f}, {"values": [f]}, {"values": [f, "zz"]}, {"value": f, "essential": True},
+                              {"value": f, "values": [f]}):
+                        o = copy.deepcopy(o)
+                        if blank is not ABSENT:
+                            o["allow_blank"] = blank
+                        if ctx.quick and rng.random() < 0.6:
+                            continue
+                        yield ("falsy", 0, 0, {name: o}, {name: copy.deepcopy(v)})
+    for name in ("exp", "nbf", "iat"):
+        for v in (0, 0.0, -0.0, False, ""):
+            for o in (None, {"value": 0}, {"values": [0.0]}, {"value": False}, {"essential": True}, {"essential": False}):
+                for now, lw in ((0, 0), (0, None), (1, 1)):
+                    yield ("falsy", now, lw, {} if o is None else {name: o}, {name: v})
+    # 2e. every ordered pair of failing clauses (which error wins), and three at once
+    for now, lw in ((1000, 10), (0, 0)):
+        units = failing_units(now, lw)
+        for (ka, va, oa, _), (kb, vb, ob, _) in itertools.permutations(units, 2):
+            if ka == kb:
+                continue
+            opts, claims = {}, {}
+            for k, v, o in ((ka, va, oa), (kb, vb, ob)):
+                if o is not None:
+                    opts[k] = copy.deepcopy(o)
+                if v is not ABSENT:
+                    claims[k] = copy.deepcopy(v)
+            yield ("pairs", now, lw, opts, claims)
+        for _ in range(ctx.scale(150, 3000)):
+            tri = rng.sample(units, 3)
+            if len({u[0] for u in tri}) < 3:
+                continue
+            opts = {k: copy.deepcopy(o) for k, v, o, _ in tri if o is not None}
+            claims = {k: copy.deepcopy(v) for k, v, o, _ in tri if v is not ABSENT}
+            yield ("pairs", now, lw, opts, claims)
     # 3. several claims, several requests, shuffled order (precedence of errors)
     names = ["iss", "sub", "aud", "exp", "nbf", "iat", "jti", "priv"]
 
@@ -317,6 +435,19 @@ def check_one(ctx, tag, now, lw, opts, claims, dist):
                       "validate(now=%r, leeway=%r) modified its arguments: options %s -> %s, claims %s -> %s"
                       % (now, lw, o_rep, rep(opts), c_rep, rep(claims)), replay)
         opts, claims = json.loads(o_rep, parse_constant=float), json.loads(c_rep, parse_constant=float)
+    dom, acc_s, acc_l = judge(ctx, tag, now, lw, opts, claims, cls, replay)
+    variants(ctx, tag, now, lw, opts, claims, cls, replay)
+    dist[tag] = dist.get(tag, 0) + 1
+    dist["outcome:" + (cls or "ok")] = dist.get("outcome:" + (cls or "ok"), 0) + 1
+    ctx.note_case((now, lw, o_rep, c_rep))
+    expect = "(Ok tt)" if cls is None else "(Err %s)" % c_exn(cls)
+    return cls or "returned", "CVal %s %s %s %s %s %s %s %s" % (c_Z(now), c_opt(lw, c_Z), c_opts(opts), c_claims(claims), expect,
+                                                                c_bool(dom), c_bool(acc_s), c_bool(acc_l))
+
+
+def judge(ctx, tag, now, lw, opts, claims, cls, replay):
+    """the direct oracle: the implementation's verdict `cls` (None = returned) against the statement"""
+    L = 0 if lw is None else lw
     dom = all(wf_option(o) for o in opts.values()) and all(is_json(v) for v in claims.values())
     acc_s = acc_l = False
     if dom:
@@ -352,12 +483,360 @@ def check_one(ctx, tag, now, lw, opts, claims, dist):
                               "claims without request or built-in rule changed the verdict: %s -> %s, %s -> %s (options %s)"
                               % (rep(claims), cls or "returned", rep(c2), cls2 or "returned", rep(opts)),
                               dict(replay, claims2=rep(c2)))
-    dist[tag] = dist.get(tag, 0) + 1
-    dist["outcome:" + (cls or "ok")] = dist.get("outcome:" + (cls or "ok"), 0) + 1
-    ctx.note_case((now, lw, o_rep, c_rep))
+    return dom, acc_s, acc_l
+
+
+VARIANT_COUNT = {}
+
+
+def variants(ctx, tag, now, lw, opts, claims, cls, replay):
+    """the other public ways to reach the same validation must give the same verdict:
+    positional now/leeway, options built with ClaimsOption, joserfc.jwt.JWTClaimsRegistry,
+    claims given as OrderedDict / read-only mappingproxy / a Mapping that is not a dict"""
+    ways = [("positional", "positional", None), ("ClaimsOption", "typed", None), ("jwt.JWTClaimsRegistry", "jwt", None),
+            ("OrderedDict", "kw", collections.OrderedDict), ("mappingproxy", "kw", types.MappingProxyType),
+            ("Mapping", "kw", PlainMapping)]
+    # all of them on the directed streams, a rotating one elsewhere
+    if tag in ("single", "time", "absent", "malformed", "random-malformed"):
+        n = VARIANT_COUNT["_rot"] = VARIANT_COUNT.get("_rot", 0) + 1
+        ways = [ways[n % len(ways)]]
+    for label, how, wrap in ways:
+        if how == "typed" and not all(isinstance(o, dict) for o in opts.values()):
+            continue
+        r2, pure2 = run_impl(now, lw, opts, claims, how=how, wrap=wrap)
+        VARIANT_COUNT[label] = VARIANT_COUNT.get(label, 0) + 1
+        if cls_of(r2) != cls or not pure2:
+            ctx.violation({"kind": "entry-point-differs", "entry": label},
+                          "validation reached through %s gives %s, through JWTClaimsRegistry(now=, leeway=, **options).validate(dict) %s "
+                          "(now=%r leeway=%r options=%s claims=%s)%s"
+                          % (label, cls_of(r2) or "returned", cls or "returned", now, lw, replay["options"], replay["claims"],
+                             "" if pure2 else " and modifies its arguments"),
+                          dict(replay, entry=label, impl_entry=cls_of(r2) or "returned"))
+
+
+def check_one_base(ctx, opts, claims, dist):
+    """ClaimsRegistry(**opts).validate(claims): no built-in rule at all"""
+    o_rep, c_rep = rep(opts), rep(claims)
+    res, pure = run_impl(None, None, opts, claims, base=True)
+    cls = cls_of(res)
+    replay = {"entry": "ClaimsRegistry", "now": 0, "leeway": 0, "options": o_rep, "claims": c_rep, "impl": cls or "returned"}
+    if not pure:
+        ctx.violation({"kind": "claims-modified", "entry": "ClaimsRegistry"},
+                      "ClaimsRegistry(**%s).validate modified its arguments: claims %s -> %s" % (o_rep, c_rep, rep(claims)), replay)
+        opts, claims = json.loads(o_rep, parse_constant=float), json.loads(c_rep, parse_constant=float)
+    dom = all(wf_option(o) for o in opts.values()) and all(is_json(v) for v in claims.values())
+    acc = False
+    if dom:
+        viol = violated_clauses(0, 0, opts, claims, False, builtin=False)
+        acc = not viol
+        allowed = {"MissingClaimError"} if any(c == "MissingClaimError" for _, c in viol) else {c for _, c in viol}
+        if (cls is None) != acc or (cls is not None and (not cls.startswith("EJose ") or cls.split(" ", 1)[1] not in allowed)):
+            ctx.violation({"kind": "base-registry-verdict", "raised": cls or "returned"},
+                          "ClaimsRegistry(**%s).validate(%s): %s; the requests alone (no built-in rule) call for %s"
+                          % (o_rep, c_rep, cls or "returned", "acceptance" if acc else sorted(allowed)), replay)
+    dist["base"] = dist.get("base", 0) + 1
+    ctx.note_case(("base", o_rep, c_rep))
     expect = "(Ok tt)" if cls is None else "(Err %s)" % c_exn(cls)
-    return cls or "returned", "CVal %s %s %s %s %s %s %s %s" % (c_Z(now), c_opt(lw, c_Z), c_opts(opts), c_claims(claims), expect,
-                                             c_bool(dom), c_bool(acc_s), c_bool(acc_l))
+    return cls or "returned", "CBase %s %s %s %s %s" % (c_opts(opts), c_claims(claims), expect, c_bool(dom), c_bool(acc))
+
+
+def gen_base(ctx):
+    rng = ctx.rng
+    shapes = option_shapes(ctx)
+    for name in ("sub", "aud", "exp", "iat", "now", "leeway", "options", "validate"):
+        for v in VALUES:
+            for o in rng.sample(shapes, ctx.scale(6, 60)):
+                yield {name: copy.deepcopy(o)}, {name: copy.deepcopy(v)}
+        yield {name: {"essential": True}}, {}
+        yield {name: {"essential": True}}, {name: None}
+        yield {}, {name: "x"}
+    names = ["aud", "exp", "nbf", "iat", "sub", "now", "leeway", "timestamp"]
+    for _ in range(ctx.scale(400, 8000)):
+        cn = rng.sample(names, rng.randrange(0, 5))
+        claims = {n: copy.deepcopy(rng.choice(VALUES)) for n in cn}
+        opts = {n: copy.deepcopy(rng.choice(shapes)) for n in rng.sample(names, rng.randrange(0, 4))}
+        for n in opts:
+            if n in claims and is_scalar(claims[n]) and rng.random() < 0.5:
+                opts[n]["value"] = claims[n]
+        yield opts, claims
+
+
+def check_histories(ctx, pool, dist):
+    """one registry object validating several claims sets in sequence: each verdict is that of a
+    fresh registry, whatever was validated before; two registries built with different options
+    do not influence each other; no default-argument / class-level aliasing.  -> CSeq terms"""
+    from joserfc.rfc7519.registry import JWTClaimsRegistry
+    rng = ctx.rng
+    terms, metas = [], []
+    for _ in range(ctx.scale(150, 3000)):
+        now, lw, opts, _c = rng.choice(pool)
+        lw = 0 if lw is None else lw
+        h = [copy.deepcopy(_c)] + [copy.deepcopy(rng.choice(pool)[3]) for _ in range(rng.randrange(1, 6))]
+        rng.shuffle(h)
+        fresh = [cls_of(run_impl(now, lw, copy.deepcopy(opts), copy.deepcopy(c))[0]) for c in h]
+        o_rep = rep(opts)
+        try:
+            reg = JWTClaimsRegistry(now=now, leeway=lw, **opts)
+            # another registry with other options is built and used in between
+            now2, lw2, opts2, c2 = rng.choice(pool)
+            other = JWTClaimsRegistry(now=now2, leeway=lw2 or 0, **copy.deepcopy(opts2))
+        except BaseException:  # noqa  (malformed options rejected by the constructor: nothing to sequence)
+            continue
+        state0 = (reg.now, reg.leeway, rep(reg.options), sorted(reg.essential_keys))
+        got = []
+        for c in h:
+            try:
+                other.validate(copy.deepcopy(c2))
+            except BaseException:  # noqa
+                pass
+            try:
+                r = reg.validate(c); got.append(None if r is None else "EAssert")
+            except BaseException as e:  # noqa
+                got.append(exn_class(e))
+        back = []
+        for c in reversed(h):
+            try:
+                r = reg.validate(c); back.append(None if r is None else "EAssert")
+            except BaseException as e:  # noqa
+                back.append(exn_class(e))
+        back.reverse()
+        state1 = (reg.now, reg.leeway, rep(reg.options), sorted(reg.essential_keys))
+        ctx.note_case(("history", now, lw, o_rep, rep(h)))
+        dist["history"] = dist.get("history", 0) + 1
+        if got != fresh or back != fresh or state0 != state1 or rep(opts) != o_rep:
+            ctx.violation({"kind": "validation-keeps-state"},
+                          "one JWTClaimsRegistry(now=%r, leeway=%r, **%s) validating %s in sequence gave %s, in reverse order %s, "
+                          "fresh registries give %s; registry state %s -> %s"
+                          % (now, lw, o_rep, rep(h), got, back, fresh, state0, state1),
+                          {"now": now, "leeway": lw, "options": o_rep, "claims": rep(h[0]), "history": rep(h),
+                           "impl": str(got), "fresh": str(fresh)})
+        terms.append("CSeq %s %s %s %s %s" % (c_Z(now), c_Z(lw), c_opts(opts), c_list([c_claims(c) for c in h]),
+                                              c_list(["(Ok tt)" if g is None else "(Err %s)" % c_exn(g) for g in got])))
+        metas.append(("history", now, lw, o_rep, rep(h), str(got)))
+    # aliasing of defaults / class-level state
+    a = JWTClaimsRegistry(now=5)
+    b = JWTClaimsRegistry(now=5, sub={"essential": True}, iss={"value": "i"})
+    c = JWTClaimsRegistry(now=5)
+    probs = []
+    if a.options is b.options or a.options is c.options or a.essential_keys is b.essential_keys or a.essential_keys is c.essential_keys:
+        probs.append("options / essential_keys objects shared between registries")
+    if a.options != {} or c.options != {} or set(a.essential_keys) or set(c.essential_keys):
+        probs.append("a registry built without options has options %r / essential keys %r" % (c.options, c.essential_keys))
+    for r in (a, c):
+        try:
+            r.validate({"iss": "other"})
+        except BaseException as e:  # noqa
+            probs.append("a registry built without options raised %s on {'iss': 'other'} after another registry was built" % exn_class(e))
+    ctx.note_case(("aliasing",))
+    for pr in probs:
+        ctx.violation({"kind": "registries-share-state"}, pr,
+                      {"now": 5, "leeway": None, "options": "{}", "claims": rep({"iss": "other"}), "impl": pr})
+    return terms, metas
+
+
+def check_methods(ctx, pool, dist):
+    """the public methods called directly: reg.validate_<k>(v) and reg.check_value(k, v) -> CMethod / CCheckValue terms"""
+    from joserfc.rfc7519.registry import JWTClaimsRegistry
+    rng = ctx.rng
+    terms, metas = [], []
+    singles = [t for t in pool if len(t[3]) == 1]
+    for now, lw, opts, claims in rng.sample(singles, min(len(singles), ctx.scale(2500, 40000))):
+        (k, v), = claims.items()
+        lw = 0 if lw is None else lw
+        try:
+            reg = JWTClaimsRegistry(now=now, leeway=lw, **copy.deepcopy(opts))
+        except BaseException:  # noqa
+            continue
+        v2 = copy.deepcopy(v)
+        builtin = k in ("aud", "exp", "nbf", "iat")
+        try:
+            r = getattr(reg, "validate_" + k)(v2) if builtin else reg.check_value(k, v2)
+            got = None if r is None else "EAssert"
+        except BaseException as e:  # noqa
+            got = exn_class(e)
+        # direct oracle: with nothing essential missing, validate({k: v}) is this very call
+        whole = cls_of(run_impl(now, lw, copy.deepcopy(opts), {k: copy.deepcopy(v)})[0])
+        o_rep, c_rep = rep(opts), rep(claims)
+        ctx.note_case(("method", now, lw, o_rep, c_rep))
+        dist["method"] = dist.get("method", 0) + 1
+        if whole != "EJose MissingClaimError" and whole != got:
+            ctx.violation({"kind": "method-differs", "method": ("validate_" + k) if builtin else "check_value"},
+                          "reg.%s(%s) gives %s but reg.validate(%s) gives %s (now=%r leeway=%r options=%s)"
+                          % (("validate_%s" % k) if builtin else "check_value(%r, .)" % k, rep(v), got or "returned", c_rep,
+                             whole or "returned", now, lw, o_rep),
+                          {"now": now, "leeway": lw, "options": o_rep, "claims": c_rep, "impl": whole or "returned"})
+        expect = "(Ok tt)" if got is None else "(Err %s)" % c_exn(got)
+        if builtin:
+            terms.append("CMethod %s %s %s %s %s %s" % (c_Z(now), c_Z(lw), c_opts(opts), c_str(k), c_pv(v), expect))
+        else:
+            terms.append("CCheckValue %s %s %s %s" % (c_opts(opts), c_str(k), c_pv(v), expect))
+        metas.append(("method", now, lw, o_rep, c_rep, got or "returned"))
+    return terms, metas
+
+
+def check_subclasses(ctx, pool, dist):
+    """ClaimsRegistry / JWTClaimsRegistry subclassed with an extra validate_<name> method: the method is
+    called exactly once with the claim's value, in the claim's turn; everything else is unchanged"""
+    from joserfc.rfc7519.registry import JWTClaimsRegistry, ClaimsRegistry
+    from joserfc.errors import InvalidClaimError
+    rng = ctx.rng
+    calls = []
+
+    def hook(self, value):
+        calls.append(value)
+        if value != "t1":
+            raise InvalidClaimError("tenant")
+
+    SubJ = type("SubJ", (JWTClaimsRegistry,), {"validate_tenant": hook})
+    SubB = type("SubB", (ClaimsRegistry,), {"validate_tenant": hook})
+
+    def no_essential(opts):
+        return {k: ({**o, "essential": False} if o.get("essential") else dict(o)) for k, o in opts.items()}
+
+    cand = [t for t in pool if all(isinstance(o, dict) for o in t[2].values()) and "tenant" not in t[3]]
+    for now, lw, opts, claims in rng.sample(cand, min(len(cand), ctx.scale(600, 10000))):
+        lw = 0 if lw is None else lw
+        for base in (False, True):
+            if base and ("now" in opts or "leeway" in opts):
+                continue
+            items = list(copy.deepcopy(claims).items())
+            pos = rng.randrange(0, len(items) + 1)
+            tv = rng.choice(["t1", "t1", "t2", 0, None, ["t1"]])
+            full = dict(items[:pos] + [("tenant", tv)] + items[pos:])
+            o2 = copy.deepcopy(opts)
+            if rng.random() < 0.3:
+                o2["tenant"] = rng.choice([{"value": "zz"}, {"essential": True}, {"allow_blank": False, "values": []}])
+            # expectation, composed from the parent class on the other claims
+            def parent(c, o):
+                return cls_of(run_impl(now, lw, copy.deepcopy(o), copy.deepcopy(c), base=base)[0])
+            missing = parent(dict(items), opts) == "EJose MissingClaimError" or                 (o2.get("tenant", {}).get("essential") is True and tv is None)
+            if missing:
+                want, want_calls = "EJose MissingClaimError", []
+            else:
+                ne = no_essential(opts)
+                pre = parent(dict(items[:pos]), ne)
+                if pre is not None:
+                    want, want_calls = pre, []
+                elif tv != "t1":
+                    want, want_calls = "EJose InvalidClaimError", [tv]
+                else:
+                    want, want_calls = parent(dict(items[pos:]), ne), [tv]
+            del calls[:]
+            try:
+                reg = SubB(**o2) if base else SubJ(now=now, leeway=lw, **o2)
+                r = reg.validate(full); got = None if r is None else "EAssert"
+            except BaseException as e:  # noqa
+                got = exn_class(e)
+            ctx.note_case(("subclass", base, now, lw, rep(o2), rep(full)))
+            dist["subclass"] = dist.get("subclass", 0) + 1
+            if got != want or [rep(x) for x in calls] != [rep(x) for x in want_calls]:
+                ctx.violation({"kind": "subclass-dispatch", "base": "ClaimsRegistry" if base else "JWTClaimsRegistry"},
+                              "a subclass of %s with a validate_tenant method, options %s, claims %s: verdict %s, validate_tenant called with %s; "
+                              "expected %s and calls %s" % ("ClaimsRegistry" if base else "JWTClaimsRegistry(now=%r, leeway=%r)" % (now, lw),
+                                                           rep(o2), rep(full), got or "returned", rep(calls), want or "returned", rep(want_calls)),
+                              {"now": now, "leeway": lw, "options": rep(opts), "claims": rep(dict(items)), "subclass_claims": rep(full),
+                               "impl": got or "returned"})
+
+
+def check_via_token(ctx, pool, dist):
+    """jwt.decode(...) followed by claims_requests.validate(token.claims): same verdict as on the claims themselves"""
+    from joserfc import jwt
+    from joserfc.jwk import OctKey
+    rng = ctx.rng
+    key = OctKey.import_key("c10-secret-c10-secret-c10-secret-0123456789")
+    cand = [t for t in pool if all(is_json(v) for v in t[3].values())]
+    unavailable = 0
+    for now, lw, opts, claims in rng.sample(cand, min(len(cand), ctx.scale(300, 5000))):
+        direct = cls_of(run_impl(now, lw, copy.deepcopy(opts), copy.deepcopy(claims))[0])
+        try:
+            tok = jwt.encode({"alg": "HS256"}, copy.deepcopy(claims), key)
+            token = jwt.decode(tok, key)
+        except BaseException:  # noqa  -- the token layer is other properties' subject (C09): counted, not judged here
+            unavailable += 1
+            continue
+        try:
+            reg = jwt.JWTClaimsRegistry(now=now, **({} if lw is None else {"leeway": lw}), **copy.deepcopy(opts))
+            r = reg.validate(token.claims); got = None if r is None else "EAssert"
+        except BaseException as e:  # noqa
+            got = exn_class(e)
+        ctx.note_case(("via-token", now, lw, rep(opts), rep(claims)))
+        dist["via-token"] = dist.get("via-token", 0) + 1
+        if got != direct and strict_same(token.claims, claims):
+            ctx.violation({"kind": "entry-point-differs", "entry": "jwt.decode + validate(token.claims)"},
+                          "validate(token.claims) after jwt.decode gives %s, validate(claims) %s (now=%r leeway=%r options=%s claims=%s)"
+                          % (got or "returned", direct or "returned", now, lw, rep(opts), rep(claims)),
+                          {"now": now, "leeway": lw, "options": rep(opts), "claims": rep(claims), "impl": direct or "returned"})
+    dist["via-token-unavailable"] = unavailable
+
+
+def check_float_clock(ctx, dist):
+    """now / leeway given as floats (and 0.0, negative): the statement with exact rational arithmetic
+    (implementation only; every number used is a multiple of 1/4, so now-leeway is exact)"""
+    for now in (0.0, 1000.0, 1000.5, -3.25, 0, 1000):
+        for lw in (0, 0.0, 0.5, 1.5, 60, -1, None):
+            if isinstance(now, int) and (lw is None or isinstance(lw, int)):
+                continue
+            L = 0 if lw is None else lw
+            for name in ("exp", "nbf", "iat"):
+                for base in (now - L, now + L):
+                    for d in (-1, -0.25, 0, 0.25, 1):
+                        for T in [base + d] + ([int(base + d)] if float(base + d).is_integer() and not isinstance(base + d, int) else []):
+                            for o in (None, {"value": T}, {"essential": True, "values": [0]}):
+                                opts = {} if o is None else {name: o}
+                                claims = {name: T}
+                                res, pure = run_impl(now, lw, opts, claims)
+                                cls = cls_of(res)
+                                replay = {"now": now, "leeway": lw, "options": rep(opts), "claims": rep(claims), "impl": cls or "returned"}
+                                judge(ctx, "float-clock", now, lw, opts, claims, cls, replay)
+                                ctx.note_case(("float-clock", now, lw, rep(opts), rep(claims)))
+                                dist["float-clock"] = dist.get("float-clock", 0) + 1
+
+
+KNOWN_CLASSES = {"ClaimsRegistry", "JWTClaimsRegistry"}
+KNOWN_METHODS = {"validate", "check_value", "validate_aud", "validate_exp", "validate_nbf", "validate_iat"}
+KNOWN_OTHER = {"check_sensitive_data",        # InsecureClaimError screening before encoding: not validation against a request
+               "convert_claims", "encode", "decode", "Token", "Claims", "ClaimsOption"}
+
+
+def scan_entry_points(ctx):
+    """fail closed on public validating entries this check does not know"""
+    import inspect
+    from joserfc import jwt
+    from joserfc.rfc7519 import registry as reg_mod, claims as claims_mod
+    import joserfc.rfc7519 as pkg
+    seen, unknown = [], []
+    names = [(jwt, n) for n in jwt.__all__]
+    for mod in (reg_mod, claims_mod, pkg):
+        for n in getattr(mod, "__all__", None) or [n for n in vars(mod) if not n.startswith("_")]:
+            obj = getattr(mod, n, None)
+            if getattr(obj, "__module__", "").startswith("joserfc.rfc7519"):
+                names.append((mod, n))
+    for mod, n in names:
+        obj = getattr(mod, n)
+        if inspect.isclass(obj) and (callable(getattr(obj, "validate", None)) or any(a.startswith("validate_") for a in dir(obj))):
+            seen.append("%s.%s" % (mod.__name__, n))
+            if obj.__name__ not in KNOWN_CLASSES:
+                unknown.append("%s.%s (class with validate)" % (mod.__name__, n))
+            for a in dir(obj):
+                if not a.startswith("_") and callable(getattr(obj, a)) and a not in KNOWN_METHODS:
+                    unknown.append("%s.%s.%s (public method)" % (mod.__name__, n, a))
+        elif inspect.isfunction(obj) and any(w in n.lower() for w in ("valid", "check", "verify", "claim")):
+            seen.append("%s.%s" % (mod.__name__, n))
+            if n not in KNOWN_OTHER:
+                unknown.append("%s.%s (function)" % (mod.__name__, n))
+        elif n not in KNOWN_OTHER and n not in KNOWN_CLASSES and not n.isupper() and not inspect.ismodule(obj) \
+                and getattr(obj, "__module__", "").startswith("joserfc.rfc7519"):
+            unknown.append("%s.%s (public name of rfc7519)" % (mod.__name__, n))
+    ctx.coverage["entry_points"] = {"validating_entries_seen": sorted(set(seen)), "unknown": sorted(set(unknown)),
+                                    "exercised": ["JWTClaimsRegistry(now=, leeway=, **opts).validate(dict)", "positional now/leeway",
+                                                  "ClaimsOption-built options", "joserfc.jwt.JWTClaimsRegistry", "OrderedDict / mappingproxy / Mapping claims",
+                                                  "ClaimsRegistry(**opts).validate", "subclasses with an extra validate_<name>",
+                                                  "reg.validate_aud/exp/nbf/iat(v) and reg.check_value(k, v) directly",
+                                                  "jwt.decode + validate(token.claims)", "now omitted / None (clock)", "float now / leeway"]}
+    for u in sorted(set(unknown)):
+        ctx.violation({"kind": "unknown-entry-point", "entry": u},
+                      "public entry %s is not in the table of claims-validation entries this check exercises" % u,
+                      {"entry": u, "no_failing_input_found": True, "broken": "entry-point table of harness/props/c10.py"})
 
 
 def check_time_numbers(ctx, now, lw, name, T):
@@ -404,11 +883,27 @@ def run(ctx):
     ok, log = ctx.prove(extra_targets=["model/C10Cases.vo"])
     cases, meta = [], []
     dist = {}
+    pool = []
     for tag, now, lw, opts, claims in gen_cases(ctx):
         o_rep, c_rep = rep(opts), rep(claims)
+        pool.append((now, lw, copy.deepcopy(opts), copy.deepcopy(claims)))
         impl, term = check_one(ctx, tag, now, lw, opts, claims, dist)
         cases.append(term)
         meta.append((tag, now, lw, o_rep, c_rep, impl))
+    for opts, claims in gen_base(ctx):
+        o_rep, c_rep = rep(opts), rep(claims)
+        impl, term = check_one_base(ctx, opts, claims, dist)
+        cases.append(term)
+        meta.append(("base", None, None, o_rep, c_rep, impl))
+    for fn in (check_histories, check_methods):
+        terms, metas = fn(ctx, pool, dist)
+        cases += terms
+        meta += metas
+    check_subclasses(ctx, pool, dist)
+    check_via_token(ctx, pool, dist)
+    check_float_clock(ctx, dist)
+    scan_entry_points(ctx)
+    dist["entry-variants"] = {k: v for k, v in VARIANT_COUNT.items() if not k.startswith("_")}
     # directed sweep of the never-accept laws on numeric representations
     n_sweep = 0
     for now in NOWS + [2 ** 53 + 1, ctx.rng.randrange(2, 2 ** 34)]:
@@ -422,7 +917,10 @@ def run(ctx):
     dist["never-accept-sweep"] = n_sweep
     check_current_time(ctx)
 
-    ctx.coverage["rule"] = ("impl verdict (return / exception class) == model validate (vm_compute); in-domain: impl Ok => Spec accepts "
+    ctx.coverage["rule"] = ("[also: ClaimsRegistry used directly vs validate_base / accepts_base; one registry object over a history "
+                            "of claims sets vs run_history; validate_<k>/check_value called directly vs check_claim/check_value; entry-point "
+                            "variants, subclasses with extra validate_<name>, jwt.decode + validate, float clock: same verdict / statement] "
+                            "impl verdict (return / exception class) == model validate (vm_compute); in-domain: impl Ok => Spec accepts "
                             "(lenient at exp=now-leeway), Spec accepts (strict) => impl Ok, exception class in the classes of the violated "
                             "clauses with Missing first; arguments unchanged; unrequested private claims do not change the verdict; "
                             "Coq Spec accepts == its Python transcription on every in-domain case")
@@ -440,14 +938,19 @@ def run(ctx):
     for i in res["failing"]:
         tag, now, lw, o, c, impl = meta[i]
         key = tag
+        if tag == "base":
+            now, lw = 0, 0
         if key in shown or len(shown) >= 12:
             continue
         shown.add(key)
         ctx.violation({"kind": "correspondence", "stream": tag},
                       "model (or Coq Spec vs its transcription) and implementation disagree on now=%r leeway=%r options=%s claims=%s"
                       % (now, lw, o, c),
-                      {"now": now, "leeway": lw, "options": o, "claims": c, "impl": impl, "case": cases[i],
-                       "model_output (verdict, in-domain, Spec strict, Spec lenient)": res["shows"].get(max([k for k in res["shows"] if k <= i], default=-1), "")[:600],
+                      {"now": now, "leeway": lw, "options": o, "claims": c if tag != "history" else rep(json.loads(c)[0]), "impl": impl,
+                       "entry": {"base": "ClaimsRegistry", "history": "one registry, several validate calls",
+                                 "method": "validate_<k> / check_value called directly"}.get(tag, "JWTClaimsRegistry.validate"),
+                       "case": cases[i][:4000],
+                       "model_output (verdicts, in-domain, Spec strict, Spec lenient)": res["shows"].get(max([k for k in res["shows"] if k <= i], default=-1), "")[:600],
                        "no_failing_input_found": direct == 0,
                        "broken": "correspondence model/C10Cases.v:c10_check vs joserfc.rfc7519.registry"})
     for si, err in res["errors"]:
@@ -478,6 +981,16 @@ def replay(path):
     if r.get("now") is None:
         t0 = int(time.time())
         claims = {k: t0 + v for k, v in r["offset_from_current_time"].items()}
+    if r.get("entry") == "ClaimsRegistry":
+        res, pure = run_impl(None, None, opts, claims, base=True)
+        got = cls_of(res) or "returned"
+        print("ClaimsRegistry(**options).validate(claims) now:", got, "| recorded:", r.get("impl"), "| arguments unchanged:", pure)
+        if all(wf_option(o) for o in opts.values()) and all(is_json(v) for v in claims.values()):
+            viol = violated_clauses(0, 0, opts, claims, False, builtin=False)
+            print("requests alone (no built-in rule): violated=%s" % viol)
+            allowed = {"MissingClaimError"} if any(c == "MissingClaimError" for _, c in viol) else {c for _, c in viol}
+            return 0 if pure and ((got == "returned") == (not viol)) and (got == "returned" or got.split(" ")[-1] in allowed) else 1
+        return 1
     res, pure = run_impl(r.get("now"), r.get("leeway"), opts, claims)
     got = "returned" if res[0] == "ok" else exn_class(res[1])
     print("implementation now:", got, "| recorded:", r.get("impl"), "| arguments unchanged:", pure)
